@@ -123,7 +123,9 @@ package ttlv
 //@ functype func(ttlv.reader) error
 //@   params r
 //@   requires typeis(r, *ttlvReader) ==> dyn(r, *ttlvReader) != nil && hdOK(dyn(r, *ttlvReader).buf)
-//@   modifies dyn(r, *ttlvReader).buf
+//@   requires typeis(r, *xmlReader) ==> dyn(r, *xmlReader) != nil && dyn(r, *xmlReader).r != nil
+//@   requires typeis(r, *jsonReader) ==> dyn(r, *jsonReader) != nil
+//@   modifies dyn(r, *ttlvReader).buf, dyn(r, *xmlReader).elem, dyn(r, *jsonReader).value, dyn(r, *jsonReader).current
 //@   ghost cbCalls = old(cbCalls) + 1
 //@   ghost cbBuf = old(dyn(r, *ttlvReader).buf)
 
@@ -458,25 +460,156 @@ package ttlv
 // contracts so that each method is checked on its own instead of being inlined into every caller.
 
 //@ func (*jsonReader).getMap
-//@   pure
+//@   requires j != nil
+//@   modifies j.current
 
 //@ func (*jsonReader).getValue
-//@   pure
+//@   requires j != nil
+//@   modifies j.current
 
 //@ func (*jsonReader).Tag
-//@   pure
+//@   requires j != nil
+//@   modifies j.current
 
 //@ func (*jsonReader).Type
-//@   pure
+//@   requires j != nil
+//@   modifies j.current
 
 //@ func (*jsonReader).assertType
+//@   requires j != nil
+//@   modifies j.current
+
+//@ func (*jsonReader).Next
+//@   requires j != nil
+//@   modifies j.value, j.current
+
+//@ func (*jsonReader).Integer
+//@   requires j != nil
+//@   modifies j.value, j.current
+
+//@ func (*jsonReader).LongInteger
+//@   requires j != nil
+//@   modifies j.value, j.current
+
+//@ func (*jsonReader).BigInteger
+//@   requires j != nil
+//@   modifies j.value, j.current
+
+//@ func (*jsonReader).Enum
+//@   requires j != nil
+//@   modifies j.value, j.current
+
+//@ func (*jsonReader).Bool
+//@   requires j != nil
+//@   modifies j.value, j.current
+
+//@ func (*jsonReader).TextString
+//@   requires j != nil
+//@   modifies j.value, j.current
+
+//@ func (*jsonReader).ByteString
+//@   requires j != nil
+//@   modifies j.value, j.current
+
+//@ func (*jsonReader).DateTime
+//@   requires j != nil
+//@   modifies j.value, j.current
+
+//@ func (*jsonReader).Interval
+//@   requires j != nil
+//@   modifies j.value, j.current
+
+//@ func (*jsonReader).Bitmask
+//@   requires j != nil
+//@   modifies j.value, j.current
+//@   loop 0 invariant -1 <= rangeindex && rangeindex < len(parts)
+
+//@ func (*jsonReader).Struct
+//@   requires j != nil && f != nil
+//@   modifies j.value, j.current
+
+//@ func newJSONReader
+//@   ensures r1 == nil ==> r0 != nil
+
+//@ func newXMLReaderFromDecoder
+//@   requires r != nil
+//@   ensures r1 == nil ==> r0 != nil && r0.r != nil
+
+//@ func newXMLReader
+//@   ensures r1 == nil ==> r0 != nil && r0.r != nil
+
+// XML reader: representation invariant "the receiver and its xml.Decoder are non-nil"; elem is nil at the end of
+// a structure or of the document, and every typed read checks it (assertType) before touching the attributes.
+//@ func (*xmlReader).value
+//@   requires dec != nil && dec.elem != nil
 //@   pure
+//@   loop 0 invariant -1 <= rangeindex && rangeindex < len(dec.elem.Attr)
+
+//@ func (*xmlReader).rawTag
+//@   requires dec != nil
+//@   pure
+//@   loop 0 invariant -1 <= rangeindex && rangeindex < len(dec.elem.Attr)
 
 //@ func (*xmlReader).Tag
+//@   requires dec != nil
 //@   pure
 
 //@ func (*xmlReader).Type
+//@   requires dec != nil
 //@   pure
+//@   loop 0 invariant -1 <= rangeindex && rangeindex < len(dec.elem.Attr)
 
 //@ func (*xmlReader).assertType
+//@   requires dec != nil
+//@   ensures r0 == nil ==> dec.elem != nil
 //@   pure
+
+//@ func (*xmlReader).Next
+//@   requires dec != nil && dec.r != nil
+//@   modifies dec.elem
+
+//@ func (*xmlReader).Integer
+//@   requires dec != nil && dec.r != nil
+//@   modifies dec.elem
+
+//@ func (*xmlReader).LongInteger
+//@   requires dec != nil && dec.r != nil
+//@   modifies dec.elem
+
+//@ func (*xmlReader).BigInteger
+//@   requires dec != nil && dec.r != nil
+//@   modifies dec.elem
+
+//@ func (*xmlReader).Enum
+//@   requires dec != nil && dec.r != nil
+//@   modifies dec.elem
+
+//@ func (*xmlReader).Bool
+//@   requires dec != nil && dec.r != nil
+//@   modifies dec.elem
+
+//@ func (*xmlReader).TextString
+//@   requires dec != nil && dec.r != nil
+//@   modifies dec.elem
+
+//@ func (*xmlReader).ByteString
+//@   requires dec != nil && dec.r != nil
+//@   modifies dec.elem
+
+//@ func (*xmlReader).DateTime
+//@   requires dec != nil && dec.r != nil
+//@   modifies dec.elem
+
+//@ func (*xmlReader).Interval
+//@   requires dec != nil && dec.r != nil
+//@   modifies dec.elem
+
+//@ func (*xmlReader).Bitmask
+//@   requires dec != nil && dec.r != nil
+//@   modifies dec.elem
+//@   loop 0 invariant -1 <= rangeindex && rangeindex < len(parts)
+
+//@ func (*xmlReader).Struct
+//@   requires dec != nil && dec.r != nil && f != nil
+//@   modifies dec.elem
+
